@@ -269,3 +269,17 @@ def run(ctx):
             what = 'raised %s: %s' % (type(e).__name__, str(e)[:100])
         if what is not None:
             ctx.violation('%s/%s/%s' % (clause, cls, 'NFFT-even' if NFFT % 2 == 0 else 'NFFT-odd'), '%s (%s, NFFT=%d): %s' % (cls, clause, NFFT, what), rep)
+
+    # ---------------- arma_estimate (the model of C15, which the arma_estimate / parma theorems are about) at modulated inputs:
+    # x_n * tw4(-(m n)) is built inside Coq from the low-bit data, the implementation gets the same Gaussian-integer array
+    from props import _c03_arma_corr as AC
+
+    def modulated(rng_, x, cplx):
+        m = int(rng_.integers(-5, 6))
+        ph = np.array([(-1j) ** ((-m * j) % 4) for j in range(len(x))])
+        return np.asarray(x, dtype=complex) * ph, '(@vmod _ ops (@sphase _ tw4 (%d)) 0 %s)' % (m, czl(x)), {'m': m}
+    extra = 'Require Import Spectrum.Theory.Dft Spectrum.Proofs.ShiftTheory Spectrum.Proofs.ShiftDft_C04 Spectrum.Instances.QcCTw.\n'
+    cases, meta = AC.gen(ctx, ctx.q(8, 80), modulated, 'modulated')
+    for i in ctx.coq_cases('c04_arma_modulated', AC.pre(extra), cases, shard=4,
+                           descr='arma_estimate at inputs modulated by the period-4 character (every outcome code, AR / MA / rho, oracle residual exactly zero) vs Model.ArmaEst.arma_estimate at QcC'):
+        ctx.corr_disagreement('arma_estimate', i, meta[i])
